@@ -53,7 +53,7 @@ PROPS["C01"] = {
              [H(n, "thorough", timeout=2400, cost=400, recursion_bounds=REC1, mem_gb=16,
                 bounds="array `ah` of two descriptors (same or distinct, symbolic), byte order symbolic, offset as named; dup(2) stubbed",
                 asserts="indices are u32 positions in the attached list in message byte order; duplicates share one slot; attached count")
-              for n in ["c01_enc_ah_p0", "c01_enc_ah_p2"]] +
+              for n in ["c01_enc_ah_p0", "c01_enc_ah_p2", "c01_enc_ah_p0_le", "c01_enc_ah_p0_be"]] +
              [H(n, "thorough", timeout=2400, cost=700, recursion_bounds=REC1, mem_gb=24, rss_gb=14,
                 bounds="struct (yu) with symbolic fields, byte order symbolic, message offset as named",
                 asserts="bytes and length == spec marshaller (8-byte struct alignment, member alignment)")
